@@ -102,7 +102,7 @@ func (g *genCtx) genTree(base string, size int, mt *int64) []Node {
 		}
 		switch k := r.intn(20); {
 		case k < 6:
-			add(Node{Path: p, Kind: 'd', Perm: r.pickPerm(true), Uid: r.pickID(), Gid: r.pickID()})
+			add(Node{Path: p, Kind: 'd', Perm: r.pickPerm(true), Uid: r.pickID(), Gid: r.pickID(), Opq: r.chance(1, 8)})
 		case k < 13:
 			n := Node{Path: p, Kind: 'r', Perm: r.pickPerm(false), Uid: r.pickID(), Gid: r.pickID(), Data: randData(r)}
 			if r.chance(1, 8) {
@@ -316,6 +316,9 @@ func (g *genCtx) genOpts(op string) OptSpec {
 		if r.chance(1, 5) {
 			o.Excludes = []string{r.pick([]string{"a", "a/b", "b/", "c", ".."})}
 		}
+		if r.chance(1, 6) {
+			o.Overlay = true
+		}
 	}
 	if r.chance(1, 4) {
 		o.UidMap = []IDRange{{0, 100000, 65536}}
@@ -418,8 +421,11 @@ func genFsCase(r *Rng, family string) *FsCase {
 			existing = append(existing, strings.TrimPrefix(n.Path, dest+"/"))
 		}
 	}
-	c.Hdrs, c.Bodies = g.genEntries(1+r.intn(7), existing)
 	c.Opts = g.genOpts(op)
+	if c.Opts.Overlay {
+		g.layer = true // whiteout-named entries are what the overlay converter acts on
+	}
+	c.Hdrs, c.Bodies = g.genEntries(1+r.intn(7), existing)
 	return c
 }
 
@@ -466,6 +472,7 @@ func runExtract(cfg *Config, family string) *Result {
 		return res
 	}
 	results := runArena(cfg, jobs, 20*time.Second)
+	sigShown := map[string]int{}
 	for i, c := range cases {
 		jr := results[i]
 		res.count("op:" + c.Op)
@@ -519,6 +526,21 @@ func runExtract(cfg *Config, family string) *Result {
 		for _, p := range oracleExtract(c, &jr) {
 			p.Case = caseText
 			res.problem(p)
+		}
+		if family == "layer" {
+			b, e1 := parseOutcome("x 0 " + jr.Before)
+			a, e2 := parseOutcome("x 0 " + jr.After)
+			if e1 == nil && e2 == nil {
+				for _, p := range oracleLayerSpec(c, b, a, jr.Out) {
+					p.Case = caseText
+					res.count("layer-spec:" + p.Sig)
+					if p.Sig != "" && sigShown[p.Sig] >= 2 {
+						continue // known findings must not fill the problem list
+					}
+					sigShown[p.Sig]++
+					res.problem(p)
+				}
+			}
 		}
 		if i < 3 {
 			res.sample(truncate(lines[i], 400) + " => " + truncate(implLine, 200))
